@@ -7,7 +7,7 @@ import (
 	"sort"
 	"strings"
 
-	"golang.org/x/tools/go/ssa"
+	"ikeverif/checker/xt/ssa"
 )
 
 func isInitFunc(fn *ssa.Function) bool {
